@@ -34,6 +34,12 @@ def load_prop(prop_id):
 def _worker(args):
     prop_id, tier, seed, shard, nshards, cases, steps, shrink = args
     t0 = time.time()
+    try:
+        import faulthandler
+        import signal
+        faulthandler.register(signal.SIGUSR1, all_threads=True)     # kill -USR1 <pid> prints where a shard is
+    except Exception:
+        pass
     res = {"shard": shard, "violation": None, "error": None}
     try:
         from . import env  # noqa: F401
@@ -228,8 +234,15 @@ def main(argv=None):
     if a.shards == 1:
         results = [_worker(jobs[0])]
     else:
+        # a wall-clock limit only ever turns a hung shard into a harness error (exit 2), never into a verdict
+        limit = float(os.environ.get("TV_SHARD_TIMEOUT", "1500" if a.tier == "quick" else "10800"))
         with multiprocessing.get_context("fork").Pool(min(a.shards, os.cpu_count() or 1)) as pool:
-            results = pool.map(_worker, jobs, chunksize=1)
+            try:
+                results = pool.map_async(_worker, jobs, chunksize=1).get(timeout=limit)
+            except multiprocessing.TimeoutError:
+                pool.terminate()
+                print("HARNESS-ERROR: property=%s a shard did not finish within %.0f s (inconclusive)" % (prop_id, limit))
+                return 2
 
     errors = [r for r in results if r.get("error")]
     violations = [r["violation"] for r in results if r.get("violation")]
